@@ -27,7 +27,8 @@ Local Open Scope string_scope.
 (* ---------- _ctx_hash: the canonical form json.dumps(sort_keys=True, default=str) is injective on ---------- *)
 (* keys sorted (code-point order = byte order on UTF-8) at every depth; anything json cannot
    serialise goes through default=str: in the value domain of the model that is a datetime,
-   rendered by str(), supplied as dts (the model never formats a datetime itself). *)
+   rendered by str(), supplied as dts (the model never formats a datetime itself) — so a datetime
+   and the string that spells it collide (finding F23; switch below). *)
 Fixpoint insert_kv (kv : string * value) (l : list (string * value)) : list (string * value) :=
   match l with
   | [] => [kv]
@@ -36,12 +37,14 @@ Fixpoint insert_kv (kv : string * value) (l : list (string * value)) : list (str
 Definition sort_kvs (l : list (string * value)) : list (string * value) := fold_right insert_kv [] l.
 
 Section Canon.
-  Variable dts : bool -> Z -> string.          (* str(datetime): aware?, microseconds *)
+  (* Some f: datetimes go through default=str, f = str(datetime) (the tree as it is: finding F23);
+     None: datetimes stay apart from every string (the behaviour after a repair of F23) *)
+  Variable dts : option (bool -> Z -> string).      (* aware?, microseconds *)
   Fixpoint canon (v : value) : value :=
     match v with
     | VList l => VList (map canon l)
     | VObj kvs => VObj (sort_kvs (map (fun kv => (fst kv, canon (snd kv))) kvs))
-    | VDate a u => VStr (dts a u)
+    | VDate a u => match dts with Some f => VStr (f a u) | None => VDate a u end
     | other => other
     end.
 End Canon.
@@ -49,7 +52,7 @@ End Canon.
 (* an executable stand-in for _ctx_hash: a printing of the canonical form (the wire text, which
    separates every two different values); the harness compares equality of _ctx_hash with equality
    of this function on generated contexts *)
-Definition ctx_hash_model (dts : bool -> Z -> string) (v : value) : string := show_value (canon dts v).
+Definition ctx_hash_model (dts : option (bool -> Z -> string)) (v : value) : string := show_value (canon dts v).
 
 Fixpoint has_date (v : value) : bool :=
   match v with
